@@ -38,6 +38,92 @@ func genConfigUse(repo, out string) error {
 		}
 		return ""
 	}
+	// functions of the package with one parameter: name -> (parameter name, body), used to see which pattern text a
+	// regexp constructor finally compiles
+	type fn1 struct {
+		param string
+		body  *ast.BlockStmt
+	}
+	funcs := map[string]fn1{}
+	for _, n := range p.sortedFiles() {
+		for _, d := range p.files[n].Decls {
+			fd, ok := d.(*ast.FuncDecl)
+			if !ok || fd.Body == nil || fd.Recv != nil || fd.Type.Params == nil || len(fd.Type.Params.List) != 1 || len(fd.Type.Params.List[0].Names) != 1 {
+				continue
+			}
+			funcs[fd.Name.Name] = fn1{param: fd.Type.Params.List[0].Names[0].Name, body: fd.Body}
+		}
+	}
+	// patOf: the text of a string expression with the configuration field written as "$"; env maps local names to text
+	var patOf func(e ast.Expr, env map[string]string, isField func(string) bool, depth int) string
+	var compiledIn func(body *ast.BlockStmt, env map[string]string, isField func(string) bool, depth int) string
+	patOf = func(e ast.Expr, env map[string]string, isField func(string) bool, depth int) string {
+		if depth > 6 {
+			return "?deep"
+		}
+		switch x := e.(type) {
+		case *ast.ParenExpr:
+			return patOf(x.X, env, isField, depth)
+		case *ast.BasicLit:
+			return x.Value
+		case *ast.BinaryExpr:
+			return patOf(x.X, env, isField, depth) + " " + x.Op.String() + " " + patOf(x.Y, env, isField, depth)
+		case *ast.CallExpr:
+			if f, ok := funcs[p.src(x.Fun)]; ok && len(x.Args) == 1 {
+				inner := patOf(x.Args[0], env, isField, depth+1)
+				// a string helper: its single return expression
+				for _, st := range f.body.List {
+					if rs, ok := st.(*ast.ReturnStmt); ok && len(rs.Results) == 1 {
+						return patOf(rs.Results[0], map[string]string{f.param: inner}, func(string) bool { return false }, depth+1)
+					}
+				}
+			}
+			return "?" + p.src(x.Fun)
+		default:
+			src := p.src(e)
+			if v, ok := env[src]; ok {
+				return v
+			}
+			if isField(src) {
+				return "$"
+			}
+			return "?" + src
+		}
+	}
+	// compiledIn: the pattern handed to regexp.Compile / MustCompile inside a helper body (directly or through helpers)
+	compiledIn = func(body *ast.BlockStmt, env map[string]string, isField func(string) bool, depth int) string {
+		out := ""
+		// for _, v := range param: v stands for one element of the (variadic / list) parameter
+		ast.Inspect(body, func(n ast.Node) bool {
+			if rs, ok := n.(*ast.RangeStmt); ok {
+				if v, ok := rs.Value.(*ast.Ident); ok {
+					if t, ok := env[p.src(rs.X)]; ok {
+						env[v.Name] = t
+					}
+				}
+			}
+			return true
+		})
+		ast.Inspect(body, func(n ast.Node) bool {
+			ce, ok := n.(*ast.CallExpr)
+			if !ok || out != "" || len(ce.Args) == 0 {
+				return true
+			}
+			switch callee := p.src(ce.Fun); callee {
+			case "regexp.Compile", "regexp.MustCompile":
+				out = patOf(ce.Args[0], env, isField, depth+1)
+			default:
+				if f, ok := funcs[callee]; ok && callee != "" && depth < 6 {
+					if family(callee) == "regexp" && len(ce.Args) == 1 {
+						inner := patOf(ce.Args[0], env, isField, depth+1)
+						out = compiledIn(f.body, map[string]string{f.param: inner}, func(string) bool { return false }, depth+1)
+					}
+				}
+			}
+			return true
+		})
+		return out
+	}
 	// field types of Rule
 	ruleFields := map[string]string{}
 	for _, n := range p.sortedFiles() {
@@ -57,7 +143,7 @@ func genConfigUse(repo, out string) error {
 			return false
 		})
 	}
-	type row struct{ typ, field, fam, where string }
+	type row struct{ typ, field, fam, where, pat string }
 	var uses, validates []row
 	for _, fn := range p.sortedFiles() {
 		for _, d := range p.files[fn].Decls {
@@ -139,11 +225,41 @@ func genConfigUse(repo, out string) error {
 				}
 				arg := p.src(ce.Args[0])
 				typ, field := typeOfArg(arg)
+				fieldSrc := arg
+				if typ == "" && fam == "regexp" {
+					// the field may sit inside an expression or a helper call: regexp.Compile(helper(m.Path))
+					ast.Inspect(ce.Args[0], func(y ast.Node) bool {
+						if e, ok := y.(ast.Expr); ok && typ == "" {
+							switch e.(type) {
+							case *ast.SelectorExpr, *ast.Ident:
+								if t, f := typeOfArg(p.src(e)); t != "" {
+									typ, field, fieldSrc = t, f, p.src(e)
+									return false
+								}
+							}
+						}
+						return true
+					})
+				}
 				if typ == "" {
 					return true
 				}
 				must := strings.Contains(callee, "Must") || callee == "strictRegex" || callee == "fullMatchRegex"
-				r := row{typ: typ, field: field, fam: fam, where: fn + ":" + fd.Name.Name}
+				pat := "$"
+				if fam == "regexp" {
+					isField := func(src string) bool { return src == fieldSrc }
+					switch callee {
+					case "regexp.Compile", "regexp.MustCompile":
+						pat = patOf(ce.Args[0], nil, isField, 0)
+					default:
+						if f, ok := funcs[callee]; ok {
+							pat = compiledIn(f.body, map[string]string{f.param: patOf(ce.Args[0], nil, isField, 0)}, func(string) bool { return false }, 0)
+						} else {
+							pat = "?" + callee
+						}
+					}
+				}
+				r := row{typ: typ, field: field, fam: fam, where: fn + ":" + fd.Name.Name, pat: pat}
 				switch {
 				case isValidate && !dropped[ce] && !must:
 					validates = append(validates, r)
@@ -159,16 +275,16 @@ func genConfigUse(repo, out string) error {
 	}
 	render := func(rs []row) string {
 		sort.Slice(rs, func(i, j int) bool {
-			return rs[i].typ+rs[i].field+rs[i].fam+rs[i].where < rs[j].typ+rs[j].field+rs[j].fam+rs[j].where
+			return rs[i].typ+rs[i].field+rs[i].fam+rs[i].where+rs[i].pat < rs[j].typ+rs[j].field+rs[j].fam+rs[j].where+rs[j].pat
 		})
 		var ls []string
 		for _, r := range rs {
-			ls = append(ls, fmt.Sprintf("  { typ := %s, field := %s, fam := %s, site := %s }", leanStr(r.typ), leanStr(r.field), leanStr(r.fam), leanStr(r.where)))
+			ls = append(ls, fmt.Sprintf("  { typ := %s, field := %s, fam := %s, site := %s, pat := %s }", leanStr(r.typ), leanStr(r.field), leanStr(r.fam), leanStr(r.where), leanStr(r.pat)))
 		}
 		return "[\n" + strings.Join(ls, ",\n") + "\n]"
 	}
 	var sb strings.Builder
-	sb.WriteString("namespace Pint.Gen.ConfigUse\n\nstructure Row where\n  typ : String\n  field : String\n  fam : String\n  site : String\n  deriving Repr, DecidableEq\n\n")
+	sb.WriteString("namespace Pint.Gen.ConfigUse\n\nstructure Row where\n  typ : String\n  field : String\n  fam : String\n  site : String\n  pat : String\n  deriving Repr, DecidableEq\n\n")
 	sb.WriteString("/-- constructor calls whose error is dropped after the configuration was accepted -/\ndef uses : List Row := " + render(uses) + "\n\n")
 	sb.WriteString("/-- constructor calls in validate methods with the error returned -/\ndef validates : List Row := " + render(validates) + "\n\n")
 	sb.WriteString("end Pint.Gen.ConfigUse\n")
